@@ -3,6 +3,8 @@
 -/
 import GridVerse.Model.Reward
 import GridVerse.Model.Visibility
+import GridVerse.Model.Reset
+import GridVerse.Model.Env
 namespace GV.Codec
 
 abbrev P := StateT (List String) Option
@@ -229,5 +231,80 @@ def pProb : P Prob := do
   let n ← pNat
   let d ← pNat
   pure ⟨n, d⟩
+
+def pBool : P Bool := do
+  match (← tok) with
+  | "1" => pure true | "0" => pure false | _ => failure
+
+def pShape : P Shape := do
+  let h ← pInt
+  let w ← pInt
+  pure ⟨h, w⟩
+
+def pResetSpec : P ResetSpec := do
+  match (← tok) with
+  | "empty" => do let sh ← pShape; let ra ← pBool; let re ← pBool; pure (.empty sh ra re)
+  | "rooms" => do
+      let sh ← pShape; let lh ← pInt; let lw ← pInt
+      let ys ← pCounted pInt; let xs ← pCounted pInt
+      pure (.rooms sh lh lw ys xs)
+  | "dynobs" => do let sh ← pShape; let n ← pInt; let ra ← pBool; pure (.dynamicObstacles sh n ra)
+  | "keydoor" => do let sh ← pShape; pure (.keydoor sh)
+  | "crossing" => do let sh ← pShape; let n ← pInt; let k ← pKind; pure (.crossing sh n k)
+  | "teleport" => do let sh ← pShape; pure (.teleport sh)
+  | "memory" => do let sh ← pShape; let cs ← pCounted pColor; pure (.memory sh cs)
+  | "memrooms" => do
+      let sh ← pShape; let lh ← pInt; let lw ← pInt
+      let ys ← pCounted pInt; let xs ← pCounted pInt
+      let cs ← pCounted pColor; let nb ← pInt; let ne ← pInt
+      pure (.memoryRooms sh lh lw ys xs cs nb ne)
+  | _ => failure
+
+def pVisKind : P VisKind := do
+  match (← tok) with
+  | "ft" => pure .ft | "po" => pure .po | "rt" => pure .rt | _ => failure
+
+/-- environment description: spaces, components, debug flag -/
+def pEnv : P EnvSpec := do
+  let sh ← pNat; let sw ← pNat
+  let skinds ← pCounted pKind; let scolors ← pCounted pColor
+  let acts ← pCounted pAction
+  let oh ← pNat; let ow ← pNat
+  let okinds ← pCounted pKind; let ocolors ← pCounted pColor
+  let rs ← pResetSpec
+  let trans ← pCounted pTransAtom
+  let rews ← pCounted pRewAtom
+  let vk ← pVisKind; let area ← pArea; let rays ← pRays
+  let term ← pTermFn 8
+  let dbg ← pBool
+  pure {
+    stateSpace := ⟨sh, sw, skinds, scolors⟩
+    actions := ⟨acts⟩
+    obsSpace := ⟨oh, ow, okinds, ocolors⟩
+    reset := rs.run
+    trans := trans
+    rewards := rews
+    observe := observeOf vk area rays
+    term := term
+    debug := dbg }
+
+def pOp : P Op := do
+  match (← tok) with
+  | "S" => do let l ← pCounted pNat; pure (.setSeed l)
+  | "R" => pure .reset
+  | "T" => do
+      -- an action outside the enum (for bad-action tests) is encoded as 8..: not representable;
+      -- the harness only sends enum members, membership is the action space's business
+      let a ← pAction; pure (.step a)
+  | "GS" => pure .readState
+  | "GO" => pure .readObs
+  | _ => failure
+
+def showOut : Out → String
+  | .unit => "ok"
+  | .err e => showErr e
+  | .state s => showState s
+  | .obs o => showState o
+  | .stepRes r t => " ".intercalate (r.map showRTerm) ++ " " ++ showBool t
 
 end GV.Codec
